@@ -62,6 +62,7 @@ def concrete_run(contract, registry, kwargs):
     c2 = V.Contract(contract.func, [], [], loops={}, ghosts=contract.ghosts, defs=contract.defs)
     eng = V.VEngine(registry, contract.func + "[concrete]", c2)
     eng.ghost_hooks = contract.ghosts
+    eng.concrete_fallback = True
     import ast as _ast
 
     fors = sorted((n for n in _ast.walk(node) if isinstance(n, _ast.For)), key=lambda n: (n.lineno, n.col_offset))
@@ -87,6 +88,8 @@ def concrete_run(contract, registry, kwargs):
     if len(outs) != 1:
         raise Unsupported("concrete run forked (%d outcomes)" % len(outs))
     kind, val, s = outs[0]
+    if kind == "abort":
+        raise Unsupported("concrete run left the subset: %s" % val)
     ghosts = {}
     for k, v in s.ghost.items():
         try:
